@@ -155,9 +155,10 @@ where
         let r = if serial { g.serial_next() } else { pool.install(|| g.par_next()) };
         lines.append(&mut sh.events.lock().expect("lock"));
         let after = g.population().ids();
+        let (size, is_empty) = (ec_core::population::Population::size(g.population()), ec_core::population::Population::is_empty(g.population()));
         lines.push(match r {
-            Ok(()) => json!({"ev": "return", "run": run, "ok": true, "err_call": 0, "pop_after": after}),
-            Err(MakerErr(c)) => json!({"ev": "return", "run": run, "ok": false, "err_call": c, "pop_after": after}),
+            Ok(()) => json!({"ev": "return", "run": run, "ok": true, "err_call": 0, "pop_after": after, "size": size, "is_empty": is_empty}),
+            Err(MakerErr(c)) => json!({"ev": "return", "run": run, "ok": false, "err_call": c, "pop_after": after, "size": size, "is_empty": is_empty}),
         });
     }
     lines
@@ -200,9 +201,14 @@ fn run_scored(sh: &Shared, run: u64, n: usize, serial: bool, threads: usize, fai
             scored_ok.store(false, Ordering::SeqCst);
         }
         let after = if scored_ok.load(Ordering::SeqCst) { ids(g.population()) } else { vec![0] };
+        let (size, is_empty) = if scored_ok.load(Ordering::SeqCst) {
+            (ec_core::population::Population::size(g.population()), ec_core::population::Population::is_empty(g.population()))
+        } else {
+            (1, false)
+        };
         lines.push(match r {
-            Ok(()) => json!({"ev": "return", "run": run, "ok": true, "err_call": 0, "pop_after": after}),
-            Err(MakerErr(c)) => json!({"ev": "return", "run": run, "ok": false, "err_call": c, "pop_after": after}),
+            Ok(()) => json!({"ev": "return", "run": run, "ok": true, "err_call": 0, "pop_after": after, "size": size, "is_empty": is_empty}),
+            Err(MakerErr(c)) => json!({"ev": "return", "run": run, "ok": false, "err_call": c, "pop_after": after, "size": size, "is_empty": is_empty}),
         });
     }
     lines
